@@ -33,6 +33,8 @@ CONSTANTS RecSz,            \* <<s1,..,sn>> journal record size (bytes) of chunk
           MaxRecs,          \* bound: records in the journal
           MaxCrashes,       \* bound: Crash actions per behaviour
           MaxOpens,         \* bound: Open actions per behaviour
+          ScanMin,          \* possibleDataLossCheck examines a position only if at least ScanMin bytes follow it:
+                            \* 8 (smallest valid record) since dolt 748c3d0, rootHashRecordSize() = 40 before (DevTinyTail)
           MaxDamage,        \* bound: Damage actions per behaviour
           D, RecordHist
 
@@ -152,9 +154,9 @@ ValidRun(ds, f) == IF f < Len(ds) /\ ds[f + 1].ok THEN 1 + ValidRun(ds, f + 1) E
 \* `seen(j)`: the scan can see record j.  The rule of the code's own comment: every parsable record.
 ValidAfter(ds, vp, seen(_)) == SelectSeq([j \in 1..(Len(ds) - vp - 1) |-> vp + 1 + j], LAMBDA j : ds[j].ok /\ seen(j))
 RootThenRecord(ds, idxs) == \E a, b \in 1..Len(idxs) : a < b /\ ds[idxs[a]].k = "r"
-\* transcription of the loop bound `idx <= len(buf) - rootHashRecordSize()`: a record that starts less than
-\* RootSz bytes before the end of the file is never examined  (named deviation DevTinyTail)
-SeenByCode(ds, tl, j) == tl.part # "none" \/ tl.fill # "none" \/ Bytes(ds) - Off(ds, j - 1) >= RootSz
+\* transcription of the loop bound `idx <= len(buf) - ScanMin`: a record that starts less than ScanMin bytes before the
+\* end of the file is never examined.  With ScanMin = 40 (before 748c3d0) a 37/39-byte last record was missed: DevTinyTail.
+SeenByCode(ds, tl, j) == tl.part # "none" \/ tl.fill # "none" \/ Bytes(ds) - Off(ds, j - 1) >= ScanMin
 
 RecoverWith(ds, tl, m, ixf, canWrite, seen(_)) ==
   LET li == LoadIndex(ixf, ds)
